@@ -70,6 +70,8 @@ pub fn name_member_vftable(t: &mut Tape, prog: &mut crate::model::Prog) {
     let (mi, ii, fi) = sites[t.below(sites.len() as u64) as usize];
     if let Item::Type(td) = &mut prog.mods[mi].items[ii] {
         td.fields[fi].name = "vftable".into();
+        // a private `vftable: T` reads as the start of a vftable block: only `pub vftable: T` can be written
+        td.fields[fi].vis = true;
     }
 }
 
